@@ -12,8 +12,9 @@ CONSTANTS MaxDec
 SmallAlpha == {" ", "1", "a"}
 Small == UNION {[1..m -> SmallAlpha] : m \in 0..3}
 Long(len) == [i \in 1..len |-> "a"]
-Types == Small \cup {Long(9), Long(10), Long(11), Long(100), <<"a", " ", "1", "0", " ">>}
-Payloads == Small \cup {Long(9), Long(10), Long(99), Long(100), Long(101), <<"1", " ", "a", " ", "2">>}
+\* (lengths around every power of ten that a model string can reasonably have: the decimal length fields change width there)
+Types == Small \cup {Long(9), Long(10), Long(11), Long(100), Long(1000), <<"a", " ", "1", "0", " ">>}
+Payloads == Small \cup {Long(9), Long(10), Long(99), Long(100), Long(101), Long(999), Long(1000), Long(1001), <<"1", " ", "a", " ", "2">>}
 \* payloads that are themselves complete encodings - of the same type, of another type, followed by more bytes,
 \* nested twice: framing is by the length fields alone, a payload's content is never looked at
 NestT == {<< >>, <<"a">>, <<"a", " ">>}
